@@ -957,10 +957,27 @@ def stream_s2(cx, rate0_only=False):
     if cx.prop == "C15":
         profs["c15"] = 336 if cx.tier == "quick" else 6000
     if cx.prop == "C11":
-        # outputs beyond 64 KiB on the framing protocols: anything the body loop does "every N bytes" shows only there
-        profs["big"] = 2 if cx.tier == "quick" else 32
+        # framed outputs well beyond 64 KiB on the framing protocols: anything the body loop does "every N bytes" shows only
+        # there.  Directed: fuzzer bytes whose first byte makes the FRAME coin come up true, 7 000 opcodes, protocols 4 and 5
+        profs["framed-big"] = 2 if cx.tier == "quick" else 12
+        if cx.tier != "quick":
+            profs["big"] = 32
+    def framed_big(n):
+        rng = random.Random(cx.seed * 13 + 4)
+        lines = []
+        for i in range(n):
+            data = bytes([1]) + bytes(rng.randrange(256) for _ in range(70000))
+            lines.append("id=%d P=%d unsafe=0 mu=0 ext=0 buf=0 min=7000 max=7000 mask=0 rate=0000000000000000 warm=0 mode=arb:%s" % (900000 + i, 4 + i % 2, data.hex()))
+        rc, req, err = sh([HARNESS, "trace", "--stdin"], inp="\n".join(lines) + "\n", timeout=STREAM_TIMEOUT[0])
+        reqs = [l for l in req.split("\n") if l.startswith("trace ")]
+        if rc != 0 or len(reqs) != n:
+            raise RuntimeError("framed-big traces: harness rc=%s answered %d of %d" % (rc, len(reqs), n))
+        outs = [l for l in drive(req) if l.startswith("trace ")]
+        if len(outs) != len(reqs):
+            raise RuntimeError("driver answered %d of %d framed-big traces" % (len(outs), len(reqs)))
+        return list(zip(reqs, outs))
     for prof, n in profs.items():
-        for (req, out) in run_trace(n, cx.seed * 7919 + 13, prof, "0" if cx.P["unsafe"] == "0" else "mix"):
+        for (req, out) in (framed_big(n) if prof == "framed-big" else run_trace(n, cx.seed * 7919 + 13, prof, "0" if cx.P["unsafe"] == "0" else "mix")):
             r = toks(req)
             if " FAIL " in out:
                 if not hasattr(cx, "s2_requests"):
